@@ -159,6 +159,8 @@ type c39Stats struct {
 	snaps, resnaps, switches, switchesWithDelta, switchesFenceFirst, cleanups atomic.Int64
 	forwardsChecked, createNoop                                               atomic.Int64
 	batchHarmless, batchStale, batchFailed, deliveredAfterFailedBatch         atomic.Int64
+	fenceBatchSnapshotPhase, fenceBatchDeltaPhase, fenceBatchRefused          atomic.Int64
+	fenceBatchAcceptedBefore                                                  atomic.Int64
 }
 
 type c39Delta struct {
@@ -451,6 +453,9 @@ func (in *c39Inst) Events() []string {
 	}
 	if !fenced && !in.switched {
 		evs = append(evs, "fence")
+		// the fence shares its ApplyBatch on the source with ordinary writes of the same hash slot
+		// (consecutive committed entries of the source's log), in every runtime phase of the source
+		evs = append(evs, c39FenceBatchEvents...)
 	}
 	nOut, onlyFenceMarker := 0, false
 	if !in.switched {
@@ -488,6 +493,8 @@ func (in *c39Inst) Apply(evl string, env *mc.Env) (string, error) {
 		return in.evSnap()
 	case evl == "fence":
 		return in.evFence()
+	case strings.HasPrefix(evl, "fb:"):
+		return in.evFenceBatch(evl[3:])
 	case evl == "deliver":
 		return in.evDeliver(env)
 	case evl == "replay":
@@ -633,6 +640,254 @@ func (in *c39Inst) evFence() (string, error) {
 		return "fenced+forwarded", nil
 	}
 	return "fenced(snapshot phase)", nil
+}
+
+// ---------------------------------------------------------------- fence sharing its ApplyBatch with ordinary writes (source side)
+
+// c39FenceBatchEvents are the explored source batches: 'F' = enter_fence with the explicit
+// target, '0' / '1' = upsert of k0 / k1, '2' = create-if-absent of k2, all for the migrating
+// hash slot, applied in ONE ApplyBatch call of the source in that order.
+var c39FenceBatchEvents = []string{"fb:F0"} // thorough adds "fb:1F00" (set in TestVerifC39 before the exploration starts)
+
+type c39Item struct {
+	fence bool
+	ack   uint64 // != 0: ack of that outbox row
+	label string
+	data  []byte
+	idx   uint64
+	res   string
+}
+
+func (in *c39Inst) shapeItems(shape string) []c39Item {
+	var items []c39Item
+	for _, ch := range shape {
+		switch ch {
+		case 'F':
+			items = append(items, c39Item{fence: true, label: "fence", data: fsm.EncodeEnterFenceCommandForTarget(in.hs, multiraft.SlotID(in.slotT))})
+		case '0', '1':
+			label, data := in.writeCmd("w:" + string(ch))
+			items = append(items, c39Item{label: label, data: data})
+		case '2':
+			label, data := in.writeCmd("c:2")
+			items = append(items, c39Item{label: label, data: data})
+		case 'A': // ack of the oldest outbox row present before the commands (an index never used when the outbox is empty: a no-op)
+			idx := uint64(1 << 40)
+			if rows := in.outbox(); len(rows) > 0 {
+				idx = rows[0].SourceIndex
+			}
+			items = append(items, c39Item{ack: idx, label: "ack", data: fsm.EncodeAckHashSlotMigrationOutboxCommand(in.hs, multiraft.SlotID(in.slotS), multiraft.SlotID(in.slotT), idx)})
+		default:
+			in.fail("bad batch shape %q", shape)
+		}
+	}
+	return items
+}
+
+// applySourceItems applies the commands on the source: all in ONE ApplyBatch call, or one
+// command per ApplyBatch call (same raft indexes either way).
+func (in *c39Inst) applySourceItems(items []c39Item, oneBatch bool) error {
+	if !oneBatch {
+		for i := range items {
+			res, idx, err := in.applyS(in.hs, items[i].data)
+			if err != nil {
+				return err
+			}
+			items[i].idx, items[i].res = idx, res
+			in.labelByIdx[idx], in.dataByIdx[idx] = items[i].label, items[i].data
+		}
+		return nil
+	}
+	cmds := make([]multiraft.Command, len(items))
+	for i := range items {
+		in.idxS++
+		items[i].idx = in.idxS
+		in.labelByIdx[in.idxS], in.dataByIdx[in.idxS] = items[i].label, items[i].data
+		cmds[i] = multiraft.Command{SlotID: multiraft.SlotID(in.slotS), HashSlot: in.hs, Index: in.idxS, Term: 1, Data: items[i].data}
+	}
+	res, err := in.smS.ApplyBatch(c39Ctx, cmds)
+	if err != nil {
+		return err
+	}
+	for i := range items {
+		items[i].res = string(res[i])
+	}
+	return nil
+}
+
+func c39ItemResults(items []c39Item) string {
+	var parts []string
+	for _, it := range items {
+		parts = append(parts, it.label+"->"+it.res)
+	}
+	return "[" + strings.Join(parts, " | ") + "]"
+}
+
+func (in *c39Inst) runtimePhaseName() string {
+	if in.started {
+		return "delta phase"
+	}
+	return "no runtime migration entry (snapshot phase)"
+}
+
+// judgeSourceItems is the oracle for commands the source answered (in log order): a write
+// ordered after the fence is refused and leaves no trace; a write ordered before it is accepted,
+// and while the delta phase runs it is in the durable outbox and was forwarded exactly once; the
+// fence is durable with its own index, has its outbox marker and is forwarded in the delta phase.
+func (in *c39Inst) judgeSourceItems(items []c39Item, fencedBefore, sameBatch bool) error {
+	fencedNow := fencedBefore
+	var wantRows, noRows, wantFwd []uint64
+	refused := map[uint64]bool{}
+	var fenceIdx uint64
+	how := "in a later ApplyBatch"
+	if sameBatch {
+		how = "in the SAME ApplyBatch"
+	}
+	for _, it := range items {
+		if it.ack != 0 {
+			if it.res != fsm.ApplyResultOK {
+				in.fail("outbox ack answered %q %s", it.res, c39ItemResults(items))
+				return nil
+			}
+			for _, r := range in.outbox() {
+				if r.SourceIndex == it.ack {
+					return mc.Violatef("C39:acked-outbox-row-kept", "outbox row %d is still listed after its ack was applied (%s)", it.ack, c39ItemResults(items))
+				}
+			}
+			continue
+		}
+		if it.fence {
+			if it.res != fsm.ApplyResultOK {
+				in.fail("enter fence answered %q %s", it.res, c39ItemResults(items))
+				return nil
+			}
+			if !fencedNow {
+				fencedNow, fenceIdx = true, it.idx
+				in.labelByIdx[it.idx], in.dataByIdx[it.idx] = "fence", it.data
+				wantRows = append(wantRows, it.idx)
+				if in.started {
+					wantFwd = append(wantFwd, it.idx)
+				}
+			}
+			continue
+		}
+		if fencedNow {
+			if it.res == fsm.ApplyResultOK {
+				if fenceIdx != 0 && sameBatch {
+					return mc.Violatef("C39:write-after-fence-in-same-batch-accepted", "source (%s) accepted %s at index %d although enter_fence for the hash slot was applied at index %d earlier %s: results %s, source rows %s", in.runtimePhaseName(), it.label, it.idx, fenceIdx, how, c39ItemResults(items), c39MapStr(in.users(in.a.S)))
+				}
+				return mc.Violatef("C39:fenced-source-accepted-write", "source accepted %s after it entered the fence for the migrating hash slot (%s)", it.label, c39ItemResults(items))
+			}
+			refused[it.idx] = true
+			noRows = append(noRows, it.idx)
+			in.st.fenceBatchRefused.Add(1)
+			continue
+		}
+		if it.res != fsm.ApplyResultOK {
+			in.fail("unfenced owner S refused %s: %s", it.label, c39ItemResults(items))
+			return nil
+		}
+		c39Effect(in.model, it.label)
+		c39Effect(in.srcModel, it.label)
+		in.labelByIdx[it.idx], in.dataByIdx[it.idx] = it.label, it.data
+		in.st.fenceBatchAcceptedBefore.Add(1)
+		if in.started {
+			wantRows = append(wantRows, it.idx)
+			wantFwd = append(wantFwd, it.idx)
+			in.deltaWrites++
+		} else {
+			noRows = append(noRows, it.idx)
+		}
+	}
+	rows := map[uint64]metadb.HashSlotMigrationOutboxRow{}
+	for _, r := range in.outbox() {
+		rows[r.SourceIndex] = r
+	}
+	for _, idx := range wantRows {
+		what := "write"
+		if in.labelByIdx[idx] == "fence" {
+			what = "fence"
+		}
+		row, ok := rows[idx]
+		if !ok {
+			return mc.Violatef("C39:accepted-"+what+"-missing-from-outbox", "source accepted the %s %s at index %d while the hash slot migrates, but the durable outbox has no row for it (outbox %v, results %s)", what, in.labelByIdx[idx], idx, in.outboxLabels(), c39ItemResults(items))
+		}
+		if !bytes.Equal(row.Data, in.dataByIdx[idx]) {
+			return mc.Violatef("C39:outbox-row-differs-from-command", "outbox row %d carries other bytes than the accepted command", idx)
+		}
+	}
+	for _, idx := range noRows {
+		if _, ok := rows[idx]; ok {
+			if refused[idx] {
+				return mc.Violatef("C39:refused-write-in-outbox", "source refused the write at index %d but wrote an outbox row for it (%s)", idx, c39ItemResults(items))
+			}
+			return mc.Violatef("C39:outbox-row-without-migration", "source wrote an outbox row for index %d although no migration is running", idx)
+		}
+	}
+	okFwd := len(in.fwd) == len(wantFwd)
+	for i := 0; okFwd && i < len(wantFwd); i++ {
+		f := in.fwd[i]
+		okFwd = f.Index == wantFwd[i] && bytes.Equal(f.Data, in.dataByIdx[wantFwd[i]]) && f.HashSlot == in.hs && uint64(in.fwdTarget[i]) == in.slotT && uint64(f.SlotID) == in.slotS
+	}
+	if !okFwd {
+		var got []uint64
+		for _, f := range in.fwd {
+			got = append(got, f.Index)
+		}
+		if !in.started {
+			return mc.Violatef("C39:delta-forwarded-without-delta-phase", "the delta forwarder was called for indexes %v although the source is not in the delta phase (%s)", got, c39ItemResults(items))
+		}
+		return mc.Violatef("C39:forwarded-delta-differs-from-outbox", "the delta forwarder was called for indexes %v, want exactly one call per accepted command in log order %v (%s)", got, wantFwd, c39ItemResults(items))
+	}
+	in.st.forwardsChecked.Add(int64(len(wantFwd)))
+	if fenceIdx != 0 {
+		st, ok := in.migState()
+		if !ok || st.FenceIndex != fenceIdx || st.SourceSlot != in.slotS || st.TargetSlot != in.slotT {
+			return mc.Violatef("C39:fence-not-durable", "enter fence was accepted at index %d but the durable migration state is %+v (exists=%v) after %s", fenceIdx, st, ok, c39ItemResults(items))
+		}
+	} else if fencedBefore && !in.fenced() {
+		return mc.Violatef("C39:fence-not-durable", "the source was fenced but is not any more after %s", c39ItemResults(items))
+	}
+	return nil
+}
+
+// evFenceBatch: the fence and ordinary writes of the same hash slot are applied by ONE
+// ApplyBatch call of the source.
+func (in *c39Inst) evFenceBatch(shape string) (string, error) {
+	fencedBefore := in.fenced()
+	items := in.shapeItems(shape)
+	obs := "source batch " + shape + " in " + in.runtimePhaseName()
+	if err := in.applySourceItems(items, true); err != nil {
+		return obs + ": error", mc.Violatef("C39:valid-source-batch-failed", "one ApplyBatch of the source (%s) carrying %s, each of which is answered alone, failed: %v", in.runtimePhaseName(), shape, err)
+	}
+	if in.started {
+		in.st.fenceBatchDeltaPhase.Add(1)
+	} else {
+		in.st.fenceBatchSnapshotPhase.Add(1)
+	}
+	err := in.judgeSourceItems(items, fencedBefore, true)
+	if err == nil {
+		// A refused write leaves no trace, so its version token is handed out again: the state
+		// after the batch is then the state after the fence alone (plus the accepted earlier
+		// writes) and merges with it. Accepted writes precede the refused ones of their key.
+		for _, it := range items {
+			if !it.fence && it.res != fsm.ApplyResultOK {
+				for k, key := range c39Keys {
+					if c39LabelKey(it.label) == key {
+						in.ver[k]--
+					}
+				}
+			}
+		}
+	}
+	return obs + ": " + c39ResultsOnly(items), err
+}
+
+func c39ResultsOnly(items []c39Item) string {
+	var parts []string
+	for _, it := range items {
+		parts = append(parts, it.res)
+	}
+	return strings.Join(parts, ",")
 }
 
 func (in *c39Inst) evSnap() (string, error) {
@@ -1041,6 +1296,208 @@ func (in *c39Inst) Check() error {
 	return nil
 }
 
+// ---------------------------------------------------------------- differential section: one batch vs one command per batch
+
+const c39DiffSystem = "fence-batch-vs-one-command-per-batch"
+
+type c39DiffReplay struct {
+	System string   `json:"system"`
+	Prefix []string `json:"prefix"`
+	Shape  string   `json:"shape"`
+}
+
+// digest is everything observable of the source after the commands: answers, rows, durable
+// migration state, outbox, forwarder calls (raft indexes are equal on both sides by construction).
+func (in *c39Inst) sourceDigest(items []c39Item) string {
+	st, has := in.migState()
+	var fw []string
+	for i, f := range in.fwd {
+		fw = append(fw, fmt.Sprintf("%d:%s->%d", f.Index, in.labelOfData(f.Index, f.Data), uint64(in.fwdTarget[i])-in.slotS))
+	}
+	var ob []string
+	for _, r := range in.outbox() {
+		ob = append(ob, fmt.Sprintf("%d:%s", r.SourceIndex, in.labelOfData(r.SourceIndex, r.Data)))
+	}
+	applied, err := in.a.S.SlotAppliedIndex(c39Ctx, in.slotS)
+	if err != nil {
+		in.fail("SlotAppliedIndex: %v", err)
+	}
+	return fmt.Sprintf("answers=%s rows=%s state={exists=%v own-source=%v own-target=%v phase=%d fence=%d lastOutbox=%d lastAcked=%d} outbox=%v forwarded=%v applied-index=%d",
+		c39ItemResults(items), c39MapStr(in.users(in.a.S)), has, !has || st.SourceSlot == in.slotS, !has || st.TargetSlot == in.slotT, st.Phase, st.FenceIndex, st.LastOutboxIndex, st.LastAckedIndex, ob, fw, applied)
+}
+
+// labelOfData names the command carried by an outbox row / forwarder call through the harness's
+// own record of what was submitted at that index ("?" when the bytes are not that command).
+func (in *c39Inst) labelOfData(idx uint64, data []byte) string {
+	if d, ok := in.dataByIdx[idx]; ok && bytes.Equal(d, data) {
+		return in.labelByIdx[idx]
+	}
+	return "?"
+}
+
+func c39DiffShapes() []string {
+	var out []string
+	syms := []byte{'0', '1', '2'}
+	for n := 2; n <= 3; n++ { // every sequence of length 2..3 with exactly one fence
+		for pos := 0; pos < n; pos++ {
+			total := 1
+			for i := 0; i < n-1; i++ {
+				total *= len(syms)
+			}
+			for x := 0; x < total; x++ {
+				b := make([]byte, 0, n)
+				y := x
+				for i := 0; i < n; i++ {
+					if i == pos {
+						b = append(b, 'F')
+						continue
+					}
+					b = append(b, syms[y%len(syms)])
+					y /= len(syms)
+				}
+				out = append(out, string(b))
+			}
+		}
+	}
+	// the replicated outbox ack (A = ack of the oldest outbox row) next to the fence in one batch
+	return append(out, "1F00", "F012", "F0F0", "FA", "AF", "FA0", "F0A", "AF0", "A0F", "0FA", "0AF")
+}
+
+// c39DiffCase drives two fresh instance pairs through the same prefix of orchestrator events,
+// then applies the shape's commands to the source of A in ONE ApplyBatch and to the source of B
+// one command per ApplyBatch.
+func c39DiffCase(r *ev.R, st *c39Stats, prefix []string, shape string) (outcome string, v *ev.Violation) {
+	mk := func() *c39Inst { return c39New(r, st, 1, []string{"w:0", "w:1", "c:2"}).(*c39Inst) }
+	a, b := mk(), mk()
+	defer a.Close()
+	defer b.Close()
+	viol := func(fp, msg string) *ev.Violation {
+		return &ev.Violation{Fingerprint: fp, System: c39DiffSystem, Message: fmt.Sprintf("%s: prefix [%s], commands %s: %s", c39DiffSystem, strings.Join(prefix, " ; "), shape, msg),
+			Replay: c39DiffReplay{System: c39DiffSystem, Prefix: prefix, Shape: shape}}
+	}
+	for _, in := range []*c39Inst{a, b} {
+		for _, evl := range prefix {
+			enabled := false
+			for _, e := range in.Events() {
+				enabled = enabled || e == evl
+			}
+			if !enabled {
+				r.HarnessError("c39 differential: prefix event %q not enabled in [%s]", evl, strings.Join(prefix, " ; "))
+				return "harness-error", nil
+			}
+			_, err := in.Apply(evl, &mc.Env{})
+			if err == nil {
+				err = in.Check()
+			}
+			if err != nil { // the explored system reports the same defect with its own path
+				fp := "C39:violation"
+				if f, ok := err.(mc.Fingerprinter); ok {
+					fp = f.Fingerprint()
+				}
+				return "prefix-violates", viol(fp, "while preparing the state: "+err.Error())
+			}
+		}
+	}
+	fencedBefore := a.fenced()
+	a.fwd, a.fwdTarget, b.fwd, b.fwdTarget = nil, nil, nil, nil
+	ia, ib := a.shapeItems(shape), b.shapeItems(shape)
+	errA, errB := a.applySourceItems(ia, true), b.applySourceItems(ib, false)
+	if errB != nil {
+		r.HarnessError("c39 differential: one-command-per-batch application of %s failed: %v", shape, errB)
+		return "harness-error", nil
+	}
+	if errA != nil {
+		return "batch-error", viol("C39:valid-source-batch-failed", fmt.Sprintf("the ApplyBatch failed (%v), applied one command per batch every command is answered: %s", errA, c39ItemResults(ib)))
+	}
+	da, db := a.sourceDigest(ia), b.sourceDigest(ib)
+	if da != db {
+		return "differs", viol("C39:source-batch-differs-from-one-command-per-batch", fmt.Sprintf("%s; ONE ApplyBatch gives %s ; one command per ApplyBatch gives %s", a.runtimePhaseName(), da, db))
+	}
+	for i, in := range []*c39Inst{a, b} {
+		items := ia
+		if i == 1 {
+			items = ib
+		}
+		err := in.judgeSourceItems(items, fencedBefore, i == 0)
+		if err == nil {
+			err = in.Check()
+		}
+		if err != nil {
+			fp := "C39:violation"
+			if f, ok := err.(mc.Fingerprinter); ok {
+				fp = f.Fingerprint()
+			}
+			return "oracle", viol(fp, err.Error())
+		}
+	}
+	if a.broken || b.broken {
+		return "harness-error", nil
+	}
+	return c39ResultsOnly(ia), nil
+}
+
+var c39DiffPrefixes = [][]string{
+	{},                                   // no runtime migration entry, no rows
+	{"w:0"},                              // no runtime migration entry, a row
+	{"start"},                            // delta phase, no durable migration state yet
+	{"start", "w:0"},                     // delta phase, migration state + one outbox row
+	{"start", "snap", "w:0", "deliver"}, // delta phase, outbox drained and acked
+	{"fence"},                            // already fenced without a runtime entry (the second fence is a no-op)
+	{"start", "w:1", "fence"},            // already fenced in the delta phase
+}
+
+func c39Differential(r *ev.R, st *c39Stats) {
+	if rf := r.Replay(); rf != nil {
+		var pl c39DiffReplay
+		if err := json.Unmarshal(rf.Replay, &pl); err != nil || pl.System != c39DiffSystem {
+			return
+		}
+		out, v := c39DiffCase(r, st, pl.Prefix, pl.Shape)
+		fmt.Printf("replay %s: prefix %v commands %s -> %s\n", c39DiffSystem, pl.Prefix, pl.Shape, out)
+		if v != nil {
+			fmt.Printf("replay: VIOLATES: %s\n", v.Message)
+			r.MarkReplayReproduced()
+			r.Violation(*v)
+		}
+		return
+	}
+	e := r.NewEnum(c39DiffSystem)
+	shapes := c39DiffShapes()
+	var refusedAfterFence, snapshotPhase, deltaPhase int64
+	for _, prefix := range c39DiffPrefixes {
+		for _, shape := range shapes {
+			out, v := c39DiffCase(r, st, prefix, shape)
+			if v != nil {
+				// a violation must reproduce identically before it is believed
+				out2, v2 := c39DiffCase(r, st, prefix, shape)
+				if v2 == nil || out2 != out || v2.Fingerprint != v.Fingerprint {
+					r.HarnessError("c39 differential: violation %q for prefix %v commands %s did not reproduce", v.Fingerprint, prefix, shape)
+				} else {
+					r.Violation(*v)
+				}
+			}
+			if strings.Contains(out, fsm.ApplyResultHashSlotFenced) {
+				refusedAfterFence++
+			}
+			started := false
+			for _, p := range prefix {
+				started = started || p == "start"
+			}
+			if started {
+				deltaPhase++
+			} else {
+				snapshotPhase++
+			}
+			e.Case(strings.Join(prefix, ";")+"|"+shape, true, out)
+		}
+	}
+	r.Guard("differential-batches-with-a-write-refused-after-the-fence", refusedAfterFence >= 20, "n=%d", refusedAfterFence)
+	r.Guard("differential-batches-without-runtime-migration-entry", snapshotPhase >= 30, "n=%d", snapshotPhase)
+	r.Guard("differential-batches-in-delta-phase", deltaPhase >= 30, "n=%d", deltaPhase)
+	e.Done(true, map[string]any{"prefixes": c39DiffPrefixes, "commands": "every sequence of length 2..3 over {F = enter_fence with explicit target, 0 / 1 = upsert k0 / k1, 2 = create-if-absent k2} with exactly one F, plus 1F00, F012, F0F0 and FA, AF, FA0, F0A, AF0, A0F, 0FA, 0AF (A = replicated ack of the oldest outbox row, a no-op when the outbox is empty)", "shapes": len(shapes)},
+		"each case: two fresh source/target pairs driven through the same prefix; A applies the commands in ONE ApplyBatch of the source, B one command per ApplyBatch with the same raft indexes; answers, source rows, durable migration state, outbox, forwarder calls and applied index must be identical, and both sides must satisfy the fence oracle (writes ordered after the fence refused without trace, earlier writes accepted and in the outbox during the delta phase)")
+}
+
 // ---------------------------------------------------------------- test
 
 func TestVerifC39(t *testing.T) {
@@ -1055,6 +1512,9 @@ func TestVerifC39(t *testing.T) {
 	st := &c39Stats{}
 	maxSnaps := ev.Pick(r, 1, 2)
 	writes := []string{"w:0", "w:1", "c:2"}
+	if r.Thorough() {
+		c39FenceBatchEvents = []string{"fb:F0", "fb:1F00"}
+	}
 	res := mc.Run(r, mc.System{
 		Name:          "hashslot-migration",
 		New:           func() mc.Instance { return c39New(r, st, maxSnaps, writes) },
@@ -1066,6 +1526,7 @@ func TestVerifC39(t *testing.T) {
 			"orchestrator": "start (outgoing delta targets) | snap (export+preserving import; only after start or fence) | fence (enter fence for target) | deliver (first outbox row -> apply_delta on T -> ack on S; only after import) | switch (only when fenced, imported, outbox empty) | cleanup"},
 		Note: "merging on: rows of S and T read back through the metadb API, durable migration state / outbox / applied-delta records with raft indexes replaced by their rank, orchestrator flags, delivered-delta history and the reference models; raft indexes only matter through equality and order",
 	})
+	c39Differential(r, &c39Stats{})
 	if r.Replay() != nil {
 		return
 	}
@@ -1093,7 +1554,11 @@ func TestVerifC39(t *testing.T) {
 	g("snapshot-copies", st.snaps.Load(), 10)
 	g("switches", st.switches.Load(), 1)
 	g("switches-fence-first-path", st.switchesFenceFirst.Load(), 1)
+	g("fence-batched-with-writes-without-runtime-migration-entry", st.fenceBatchSnapshotPhase.Load(), 1)
+	g("fence-batched-with-writes-in-delta-phase", st.fenceBatchDeltaPhase.Load(), 1)
+	g("writes-after-the-fence-in-the-same-batch-refused", st.fenceBatchRefused.Load(), 2)
 	if r.Thorough() {
+		g("writes-before-the-fence-in-the-same-batch-accepted", st.fenceBatchAcceptedBefore.Load(), 1)
 		g("switches-after-delta-writes", st.switchesWithDelta.Load(), 1)
 		g("writes-accepted-by-target-after-switch", st.acceptedAfterSwitch.Load(), 1)
 		g("replays-after-switch", st.replaysAfterSwitch.Load(), 1)
